@@ -9,7 +9,7 @@ from harness.common import *  # noqa
 ABSENT = 'b' * 64
 
 
-def _backup(what, s0, s1, s2, s3, s4, wal, ta, tp, tc, td, cl, again):
+def _backup(what, s0, s1, s2, s3, s4, wal, ta, tp, tc, td, cl, again, same=False):
     """live container: obj0, obj2 loose, obj1 packed.  Another client adds obj3 loose (at ta), packs everything (tp,
     clean_loose_per_pack=cl), cleans (tc), writes obj4 directly to a pack (td).  ``wal``: a further client keeps a
     connection to the index open for the whole time.  ``again``: a second, incremental backup follows (no events)."""
@@ -28,26 +28,36 @@ def _backup(what, s0, s1, s2, s3, s4, wal, ta, tp, tc, td, cl, again):
         w.bat(td, lambda: other.add_streamed_objects_to_pack([w.stream(4, s4)]))
         dest = w.backup_dest()
         runs = 2 if again else 1
+        ordered = []  # backup folders in the order they were made (their names sort by second + random suffix only)
         try:
-            for _ in range(runs):
+            for nrun in range(runs):
+                if nrun == 0:
+                    w.first_backup(same)
+                else:
+                    w.next_backup(same)  # ``same``: both backups fall into the same wall-clock second
                 manager = B.BackupManager(str(dest), keep=None)
                 manager.backup_auto_folders(lambda path, prev: B.backup_container(manager, w.c, path, prev))
+                ordered += [f for f in w.backup_folders(str(dest)) if f not in ordered]
         except B.BackupError:
             return True  # the backup did not complete successfully: nothing is claimed about it
         finally:
             other.close()
-        folders = w.backup_folders(str(dest))
+        folders = ordered
         if what == 'reach':
             return not (len(folders) == 1 and tp <= w.bclock and tc <= w.bclock and tp >= 7)
         if len(folders) != runs:
             return False
         start = objs_map(w, [(0, s0), (1, s1), (2, s2)])
         later = objs_map(w, [(3, s3), (4, s4)])
-        for folder in folders:
+        for nf, folder in enumerate(folders):
             img = w.backup_image(folder)
             # every object that existed when the backup started is recoverable; every key the backup exposes is right
             if not inv_ok(img, w, start, exact=False) or not visible_complete(img, w, later):
                 return False
+            if nf == 1 and ta <= 11 and td <= 11:
+                # the second (incremental) backup started after obj3 and obj4 had been acknowledged
+                if not inv_ok(img, w, later, exact=False):
+                    return False
             allowed = dict(start)
             allowed.update(later)
             for r in img.rows():
@@ -323,6 +333,94 @@ def backup_again(s0: int, wal: bool, tp: int, tc: int, cl: bool) -> bool:
     post: _
     """
     return _backup('check', s0, 7, 5, 3, 9, wal, 5, tp, tc, 9, cl, True)
+
+
+def backup_incr_wal_keep_later(s0: int, tp: int, tc: int) -> bool:
+    """
+    Two successive backups, the second incremental on the first (rsync --link-dest hard-links what it finds unchanged);
+    another client packs (clean_loose_per_pack=False) and cleans between the two backups or early in the second (instants
+    10..17 of the backup clock); a further client keeps an index connection open (no checkpoint); the second backup starts in a later second.
+    pre: 1 <= s0 <= 70000 and 10 <= tp <= 17 and tp <= tc <= 17
+    post: _
+    """
+    return _backup('check', s0, 7, 5, 3, 9, True, 5, tp, tc, 11, False, True, False)
+
+
+def backup_incr_wal_keep_same(s0: int, tp: int, tc: int) -> bool:
+    """
+    Two successive backups, the second incremental on the first (rsync --link-dest hard-links what it finds unchanged);
+    another client packs (clean_loose_per_pack=False) and cleans between the two backups or early in the second (instants
+    10..17 of the backup clock); a further client keeps an index connection open (no checkpoint); both backups fall into the same wall-clock second.
+    pre: 1 <= s0 <= 70000 and 10 <= tp <= 17 and tp <= tc <= 17
+    post: _
+    """
+    return _backup('check', s0, 7, 5, 3, 9, True, 5, tp, tc, 11, False, True, True)
+
+
+def backup_incr_wal_clean_later(s0: int, tp: int, tc: int) -> bool:
+    """
+    Two successive backups, the second incremental on the first (rsync --link-dest hard-links what it finds unchanged);
+    another client packs (clean_loose_per_pack=True) and cleans between the two backups or early in the second (instants
+    10..17 of the backup clock); a further client keeps an index connection open (no checkpoint); the second backup starts in a later second.
+    pre: 1 <= s0 <= 70000 and 10 <= tp <= 17 and tp <= tc <= 17
+    post: _
+    """
+    return _backup('check', s0, 7, 5, 3, 9, True, 5, tp, tc, 11, True, True, False)
+
+
+def backup_incr_wal_clean_same(s0: int, tp: int, tc: int) -> bool:
+    """
+    Two successive backups, the second incremental on the first (rsync --link-dest hard-links what it finds unchanged);
+    another client packs (clean_loose_per_pack=True) and cleans between the two backups or early in the second (instants
+    10..17 of the backup clock); a further client keeps an index connection open (no checkpoint); both backups fall into the same wall-clock second.
+    pre: 1 <= s0 <= 70000 and 10 <= tp <= 17 and tp <= tc <= 17
+    post: _
+    """
+    return _backup('check', s0, 7, 5, 3, 9, True, 5, tp, tc, 11, True, True, True)
+
+
+def backup_incr_nowal_keep_later(s0: int, tp: int, tc: int) -> bool:
+    """
+    Two successive backups, the second incremental on the first (rsync --link-dest hard-links what it finds unchanged);
+    another client packs (clean_loose_per_pack=False) and cleans between the two backups or early in the second (instants
+    10..17 of the backup clock); no further connection; the second backup starts in a later second.
+    pre: 1 <= s0 <= 70000 and 10 <= tp <= 17 and tp <= tc <= 17
+    post: _
+    """
+    return _backup('check', s0, 7, 5, 3, 9, False, 5, tp, tc, 11, False, True, False)
+
+
+def backup_incr_nowal_keep_same(s0: int, tp: int, tc: int) -> bool:
+    """
+    Two successive backups, the second incremental on the first (rsync --link-dest hard-links what it finds unchanged);
+    another client packs (clean_loose_per_pack=False) and cleans between the two backups or early in the second (instants
+    10..17 of the backup clock); no further connection; both backups fall into the same wall-clock second.
+    pre: 1 <= s0 <= 70000 and 10 <= tp <= 17 and tp <= tc <= 17
+    post: _
+    """
+    return _backup('check', s0, 7, 5, 3, 9, False, 5, tp, tc, 11, False, True, True)
+
+
+def backup_incr_nowal_clean_later(s0: int, tp: int, tc: int) -> bool:
+    """
+    Two successive backups, the second incremental on the first (rsync --link-dest hard-links what it finds unchanged);
+    another client packs (clean_loose_per_pack=True) and cleans between the two backups or early in the second (instants
+    10..17 of the backup clock); no further connection; the second backup starts in a later second.
+    pre: 1 <= s0 <= 70000 and 10 <= tp <= 17 and tp <= tc <= 17
+    post: _
+    """
+    return _backup('check', s0, 7, 5, 3, 9, False, 5, tp, tc, 11, True, True, False)
+
+
+def backup_incr_nowal_clean_same(s0: int, tp: int, tc: int) -> bool:
+    """
+    Two successive backups, the second incremental on the first (rsync --link-dest hard-links what it finds unchanged);
+    another client packs (clean_loose_per_pack=True) and cleans between the two backups or early in the second (instants
+    10..17 of the backup clock); no further connection; both backups fall into the same wall-clock second.
+    pre: 1 <= s0 <= 70000 and 10 <= tp <= 17 and tp <= tc <= 17
+    post: _
+    """
+    return _backup('check', s0, 7, 5, 3, 9, False, 5, tp, tc, 11, True, True, True)
 
 
 def backup_reach(tp: int, tc: int) -> bool:
